@@ -116,11 +116,11 @@ def run(ck):
     meths = dict((k, inline_helpers(f, raw) if k != "__init__" else f) for k, f in raw.items())
 
     ck.rule("R1", "every method mutating the byte array resets the search cache on every path from the "
-                  "mutation to a normal exit", floor=2)
-    ck.rule("R1b", "search methods use the cache only after rebuilding it from the byte array when missing", floor=2)
+                  "mutation to a normal exit", floor=1)
+    ck.rule("R1b", "search methods use the cache only after rebuilding it from the byte array when missing", floor=1)
     ck.rule("R2", "a non-slice index into the byte array is proved < len(array) at the subscript", floor=1)
     ck.rule("R3", "__setitem__ pads the array up to the slice stop (exactly stop-len bytes) before the store", floor=1)
-    ck.rule("R4", "read-only methods never mutate the live byte array", floor=6)
+    ck.rule("R4", "read-only methods never mutate the live byte array", floor=4)
     ck.rule("R5", "a slice read past the end pads a copy with exactly stop-len padding bytes", floor=1)
 
     # ---------------- R1 / R4 ----------------
@@ -304,6 +304,10 @@ def _growth_rule(ck, m, fn, buf, rid, store):
             exts.append(n)
         if isinstance(n, ast.AugAssign) and norm(n.target) in al and isinstance(n.op, ast.Add):
             exts.append(n)
+        # `copy = copy + padding` (a new, longer array bound to the local the slice is taken from)
+        if isinstance(n, ast.Assign) and len(n.targets) == 1 and norm(n.targets[0]) in al and isinstance(n.value, ast.BinOp) and isinstance(n.value.op, ast.Add) \
+                and norm(n.value.left) in al:
+            exts.append(n)
     qual = "StrPatchwork.%s" % fn.name
     if not exts:
         ck.ob(rid, qual, False, m.where(fn), "no growth of the byte array at all: an access past the end is not padded")
@@ -343,13 +347,17 @@ def _growth_rule(ck, m, fn, buf, rid, store):
                 if label not in (True, False):
                     continue
                 if succ == en.id or cfg.can_reach(succ, en.id) and not _reach_other(cfg, did, label, en.id):
-                    lt = less_than(res.expand_node(dn.ast), label)
-                    if lt is None:
-                        continue
-                    a, b, strict = lt
-                    guard_seen = "%s %s %s" % (norm(a), "<" if strict else "<=", norm(b))
-                    if norm(a) == len_t and norm(b) == stop_t:
-                        guard_ok = True
+                    tx = res.expand_node(dn.ast)
+                    # a tested boolean temporary `t = A and B and C` taken true says each conjunct
+                    parts = list(tx.values) if (isinstance(tx, ast.BoolOp) and isinstance(tx.op, ast.And) and label is True) else [tx]
+                    for part in parts:
+                        lt = less_than(part, label)
+                        if lt is None:
+                            continue
+                        a, b, strict = lt
+                        guard_seen = "%s %s %s" % (norm(a), "<" if strict else "<=", norm(b))
+                        if norm(a) == len_t and norm(b) == stop_t:
+                            guard_ok = True
     detail = []
     if not len_ok:
         detail.append("subtrahend `%s` is not the array length" % len_t)
